@@ -72,11 +72,15 @@ GENS = ["Gen_analysis", "Gen_shapes", "Gen_refine", "Gen_refine_R", "Gen_spheric
         "Gen_droplet_basic"]
 CLASSES = ["SphericalDroplet", "DiffuseDroplet", "PerturbedDroplet2D", "PerturbedDroplet3D",
            "PerturbedDroplet3DAxisSym"]
-THRESHOLDS = [0.5, "extrema", "auto", "mean", "otsu", "below", "above"]
-MIN_RADII = ["-inf", 0, 0.5, 1e9]
+# numeric thresholds by description (resolved against the image by resolve_threshold): below / above the range, exactly zero in
+# three types, an image value, the image minimum / maximum
+THRESHOLDS = [0.5, "extrema", "auto", "mean", "otsu", "below", "above", "zero", "negzero", "np.float64(0)", "value", "min", "max"]
+MIN_RADII = ["-inf", 0, 0.5, 1e9, -1.0]
 WIDTHS = [None, 0, 0.5]
 MODES = [0, 1, 2, 3, 8]
-REFINE_ARGS = [{}, {"vmin": None, "vmax": None}, {"vmin": None, "vmax": None, "adjust_values": True}]
+REFINE_ARGS = [{}, {"vmin": None, "vmax": None}, {"vmin": None, "vmax": None, "adjust_values": True},
+               {"tolerance": 1e-3}, {"vmin": None, "vmax": None, "adjust_values": True, "least_squares_params": {"max_nfev": 30}}]
+DTYPES = ["float64", "float32", "int64", "uint8", "bool"]   # image data types (ScalarField(..., dtype=...))
 
 
 # =========================================================================================
@@ -182,6 +186,24 @@ def make_field_data(gs: dict, fs: dict) -> np.ndarray:
     return fs.get("a", 1.0) * np.asarray(data, float) + fs.get("b", 0.0)
 
 
+def make_image(grid, fs: dict, data: np.ndarray):
+    """the ScalarField of the recipe's image type: float64 (default), float32, int64 (4 grey levels per unit), uint8 (8 grey
+    levels per unit above the minimum, at most 100 so that no integer arithmetic wraps), bool (cells above the mean)"""
+    from pde import ScalarField
+    dt = fs.get("dtype", "float64")
+    if dt == "float64":
+        return ScalarField(grid, data)
+    if dt == "float32":
+        return ScalarField(grid, data.astype(np.float32), dtype=np.float32)
+    if dt == "int64":
+        return ScalarField(grid, np.round(data * 4).astype(np.int64), dtype=np.int64)
+    if dt == "uint8":
+        return ScalarField(grid, np.clip(np.round((data - data.min()) * 8), 0, 100).astype(np.uint8), dtype=np.uint8)
+    if dt == "bool":
+        return ScalarField(grid, data > data.mean(), dtype=bool)
+    raise ValueError(dt)
+
+
 # =========================================================================================
 # outcome of one call
 # =========================================================================================
@@ -251,6 +273,16 @@ class RefineProbe:
         self.ia.refine_droplet = self.orig
 
 
+class NoProbe:
+    fail, calls = None, 0
+
+    def __enter__(self):
+        return self
+
+    def __exit__(self, *a):
+        pass
+
+
 def refine_conditions(phase_field, cand, kw) -> list[str]:
     from scipy import ndimage
     from droplets import DiffuseDroplet
@@ -288,19 +320,36 @@ def refine_conditions(phase_field, cand, kw) -> list[str]:
 
 
 def resolve_threshold(thr, data):
+    """`data`: the image as handed to the implementation (any dtype)"""
     if thr == "below":
         return float(data.min()) - 1.0
     if thr == "above":
         return float(data.max()) + 1.0
+    if thr == "zero":
+        return 0
+    if thr == "negzero":
+        return -0.0
+    if thr == "np.float64(0)":
+        return np.float64(0)
+    if thr == "value":
+        return float(data.flat[data.size // 2])
+    if thr == "min":
+        return float(data.min())
+    if thr == "max":
+        return float(data.max())
     return thr
 
 
 def locate_kwargs(opt: dict, data) -> dict:
+    if opt.get("all_defaults"):   # nothing passed: every documented keyword at its default
+        return {}
     kw = {"threshold": resolve_threshold(opt["threshold"], data),
           "minimal_radius": -np.inf if opt["minimal_radius"] == "-inf" else opt["minimal_radius"],
           "modes": opt["modes"], "interface_width": opt["interface_width"], "refine": opt["refine"]}
     if opt["refine"]:
-        kw["refine_args"] = dict(REFINE_ARGS[opt["refine_args"]])
+        kw["refine_args"] = json.loads(json.dumps(REFINE_ARGS[opt["refine_args"]]))
+    if "num_processes" in opt:
+        kw["num_processes"] = opt["num_processes"]
     return kw
 
 
@@ -321,12 +370,15 @@ def _run_case(case: dict) -> dict:
         data = make_field_data(case["grid"], case["field"])
         if not np.all(np.isfinite(data)):
             raise RuntimeError("generated field is not finite")
+        image = make_image(grid, case["field"], data)
+        data = image.data     # thresholds given by description refer to the image as handed over
     if entry == "locate_droplets":
         from droplets.image_analysis import locate_droplets
         kw = locate_kwargs(case["options"], data)
-        with RefineProbe() as probe:
+        # the probe (a local wrapper function) cannot be sent to worker processes: parallel refinement is observed from outside only
+        with (NoProbe() if "num_processes" in kw else RefineProbe()) as probe:
             try:
-                em = locate_droplets(ScalarField(grid, data), **kw)
+                em = locate_droplets(image.copy(), **kw)
             except Exception as e:  # noqa
                 return {**exc_record(e), "refine_fail": probe.fail}
         return {"kind": "ok", "n": len(em), "nonfinite": finite_failures(em), "nrefine": probe.calls,
@@ -340,7 +392,7 @@ def _run_case(case: dict) -> dict:
         return {"kind": "ok", "n": len(em), "nonfinite": finite_failures(em)}
     if entry == "refine_droplet":
         import droplets.image_analysis as ia
-        field = ScalarField(grid, data)
+        field = image
         try:
             cands = list(ia.locate_droplets(field, threshold=resolve_threshold(case["threshold"], data), minimal_radius=-np.inf))
         except Exception as e:  # noqa
@@ -349,7 +401,7 @@ def _run_case(case: dict) -> dict:
         with RefineProbe() as probe:
             for c in cands[:3]:
                 try:
-                    out.append(ia.refine_droplet(field, c, **REFINE_ARGS[case["refine_args"]]))
+                    out.append(ia.refine_droplet(field, c, **json.loads(json.dumps(REFINE_ARGS[case["refine_args"]]))))
                 except Exception as e:  # noqa
                     return {**exc_record(e), "refine_fail": probe.fail}
         return {"kind": "ok", "n": len(out), "nonfinite": finite_failures(out), "nrefine": probe.calls}
@@ -358,12 +410,13 @@ def _run_case(case: dict) -> dict:
         opt = case["options"]
         tr = DropletTracker(1, threshold=resolve_threshold(opt["threshold"], data),
                             minimal_radius=-np.inf if opt["minimal_radius"] == "-inf" else opt["minimal_radius"],
-                            refine=opt["refine"], refine_args=dict(REFINE_ARGS[opt["refine_args"]]) if opt["refine"] else None,
+                            refine=opt["refine"],
+                            refine_args=json.loads(json.dumps(REFINE_ARGS[opt["refine_args"]])) if opt["refine"] else None,
                             perturbation_modes=opt["modes"])
         with RefineProbe() as probe:
             try:
                 for k in range(2):
-                    tr.handle(ScalarField(grid, data), float(k))
+                    tr.handle(image.copy(), float(k))
             except Exception as e:  # noqa
                 return {**exc_record(e), "refine_fail": probe.fail}
         drops = [d for em in tr.data for d in em]
@@ -372,7 +425,7 @@ def _run_case(case: dict) -> dict:
         from droplets.trackers import LengthScaleTracker
         tr = LengthScaleTracker(1, method=case["method"])
         try:
-            tr.handle(ScalarField(grid, data), 0.0)
+            tr.handle(image.copy(), 0.0)
         except Exception as e:  # noqa
             return exc_record(e)
         return {"kind": "ok", "n": len(tr.length_scales), "nonfinite": [], "value": repr(tr.length_scales[0])}
@@ -538,6 +591,8 @@ def gen_grid(rng, family: str, max3=5):
         r0 = rng.choice([0.0, 0.0, 0.0, 0.5])
         return {"family": family, "radius": [r0, r0 + n * rng.choice([0.5, 1.0, 1.0, 2.0])], "shape": n}
     nr, nz = rng.choice([1, 2, 3, 4, 5]), rng.choice([1, 2, 3, 4, 5, 6])
+    if rng.random() < 0.2:   # narrow and finely sliced: objects longer in z-cells than the grid has radial cells
+        nr, nz = rng.choice([1, 2]), rng.choice([7, 8, 10, 12])
     hz = rng.choice([0.5, 1.0, 1.0, 2.0])
     z0 = rng.choice([0.0, 0.0, -1.5, 2.0])
     return {"family": "cylindrical", "radius": nr * rng.choice([0.5, 1.0, 1.0]), "bounds_z": [z0, z0 + nz * hz],
@@ -597,16 +652,24 @@ def gen_field(rng, gs):
         fs["droplets"] = inside_droplets(rng, gs, rng.choice([1, 1, 2, 3]))
     if rng.random() < 0.3:   # affinely rescaled: large range around zero / small range on a positive offset
         fs["a"], fs["b"] = rng.choice([(1000.0, -5.0), (1000.0, -5.0), (1.0, 5.0), (0.25, 5.0)])
+    if rng.random() < 0.25:  # image data of another type
+        fs["dtype"] = rng.choice(DTYPES[1:])
     return fs
 
 
 def gen_options(rng, refine: bool):
-    return {"threshold": rng.choice(THRESHOLDS), "minimal_radius": rng.choice(MIN_RADII),
-            "interface_width": rng.choice(WIDTHS), "modes": rng.choice(MODES), "refine": refine,
-            "refine_args": rng.randrange(len(REFINE_ARGS)) if refine else 0}
+    opt = {"threshold": rng.choice(THRESHOLDS), "minimal_radius": rng.choice(MIN_RADII),
+           "interface_width": rng.choice(WIDTHS), "modes": rng.choice(MODES), "refine": refine,
+           "refine_args": rng.randrange(len(REFINE_ARGS)) if refine else 0}
+    if not refine and rng.random() < 0.05:   # nothing passed explicitly: the documented defaults
+        opt = {"threshold": 0.5, "minimal_radius": 0, "interface_width": None, "modes": 0, "refine": False, "refine_args": 0,
+               "all_defaults": True}
+    return opt
 
 
 def field_kind(fs: dict) -> str:
+    if "bits" in fs:
+        return "bits"
     k = fs["kind"] + (f"={fs['value']}" if fs["kind"] == "const" else "")
     return k + (f" *{fs['a']:g}{fs['b']:+g}" if "a" in fs else "")
 
@@ -647,6 +710,32 @@ def gen_locate_cases(ctx, rng):
                 cases.append({"entry": "locate_droplets", "grid": gs, "field": fs,
                               "options": {"threshold": "extrema", "minimal_radius": 0, "interface_width": rng.choice(WIDTHS),
                                           "modes": modes, "refine": True, "refine_args": ra}})
+    # (5) every image data type x family x threshold rule x {no refinement, refinement with given / fitted / adjusted levels}
+    for fam in ["cart1", "cart2", "cart3", "polar", "spherical", "cylindrical"]:
+        gs = gen_grid(random.Random(5), fam, max3=4)
+        if fam.startswith("cart"):
+            d = int(fam[4])
+            gs = {"family": "cartesian", "bounds": [[0.0, 4.0]] * d, "shape": [4] * d, "periodic": [True] + [False] * (d - 1)}
+        for dt in DTYPES[1:]:
+            for fs0 in ({"kind": "droplets", "droplets": inside_droplets(random.Random(11), gs, 1)}, {"kind": "const", "value": 1.0},
+                        {"kind": "bnoise", "p": 0.5, "seed": 3}):
+                for thr in (0.5, "extrema", "mean", "otsu", "value", "zero"):
+                    for refine, ra in ((False, 0), (True, 0), (True, 1), (True, 2)):
+                        if refine and fs0["kind"] == "bnoise" and thr not in ("extrema", "value"):
+                            continue
+                        cases.append({"entry": "locate_droplets", "grid": gs, "field": {**fs0, "dtype": dt},
+                                      "options": {"threshold": thr, "minimal_radius": rng.choice(MIN_RADII), "interface_width": rng.choice(WIDTHS),
+                                                  "modes": rng.choice([0, 0, 2]), "refine": refine, "refine_args": ra}})
+    # (6) refinement in worker processes (run in the main process of the check, see check())
+    for fam, nproc in (("cart2", 2), ("cart2", "auto"), ("cart1", 3), ("cylindrical", 2), ("spherical", 2), ("cart3", 2))[:ctx.scale(4, 6)]:
+        gs = gen_grid(random.Random(5), fam, max3=4)
+        if fam.startswith("cart"):
+            d = int(fam[4])
+            gs = {"family": "cartesian", "bounds": [[0.0, 6.0]] * d, "shape": [6] * d, "periodic": [True] * d}
+        for fs0 in ({"kind": "droplets", "droplets": inside_droplets(random.Random(12), gs, 2)}, {"kind": "const", "value": 0.0}):
+            cases.append({"entry": "locate_droplets", "grid": gs, "field": fs0,
+                          "options": {"threshold": "extrema", "minimal_radius": 0, "interface_width": None, "modes": 0, "refine": True,
+                                      "refine_args": 1, "num_processes": nproc}})
     return cases
 
 
@@ -830,6 +919,20 @@ def gen_tracker_cases(ctx, rng):
         # droplet_detection on symmetric grids is known finding F16 (property C17) and is not probed here
         gs = gen_grid(rng, rng.choice(["cart1", "cart2", "cart3"] if method == "droplet_detection" else FAMILIES), max3=5)
         cases.append({"entry": "LengthScaleTracker.handle", "grid": gs, "field": gen_field(rng, gs), "method": method})
+    # frames without droplets (constant images, every image type) through both trackers, every family
+    for fam in ["cart1", "cart2", "cart3", "polar", "spherical", "cylindrical"]:
+        gs = gen_grid(random.Random(7), fam, max3=4)
+        for value in (0.0, 1.0):
+            for dt in DTYPES:
+                fs = {"kind": "const", "value": value, "dtype": dt}
+                for refine, ra in ((False, 0), (True, 1)):
+                    cases.append({"entry": "DropletTracker.handle", "grid": gs, "field": fs,
+                                  "options": {"threshold": rng.choice(["extrema", "mean", "otsu", 0.5, "zero"]), "minimal_radius": 0,
+                                              "interface_width": None, "modes": 0, "refine": refine, "refine_args": ra}})
+                for method in ("structure_factor_mean", "structure_factor_maximum", "droplet_detection"):
+                    if method == "droplet_detection" and not fam.startswith("cart"):
+                        continue   # F16 (property C17)
+                    cases.append({"entry": "LengthScaleTracker.handle", "grid": gs, "field": fs, "method": method})
     return cases
 
 
@@ -899,9 +1002,15 @@ def record_hist(ctx, case, res, cls):
             ctx.count("periodic_mask", "".join("P" if p else "-" for p in gs["periodic"]))
     if "field" in case:
         ctx.count("field_kind", field_kind(case["field"]))
+        ctx.count("image_dtype", case["field"].get("dtype", "float64"))
+        if case["grid"]["family"] == "cylindrical":
+            nr, nz = case["grid"]["shape"]
+            ctx.count("cylinder_shape", "narrow (nz > 3 nr)" if nz > 3 * nr else ("nz > nr" if nz > nr else "nz <= nr"))
     if "options" in case:
         o = case["options"]
         ctx.count("threshold", o["threshold"])
+        ctx.count("options_passed", "none (all defaults)" if o.get("all_defaults") else "all explicitly")
+        ctx.count("num_processes", str(o.get("num_processes", "default (1)")))
         ctx.count("minimal_radius", o["minimal_radius"])
         ctx.count("interface_width", o["interface_width"])
         ctx.count("modes", o["modes"])
@@ -959,11 +1068,14 @@ def check(ctx: vlib.Ctx) -> int:
         ctx.count("stream", name, len(cs))
         cases += cs
     # long fits first so that the pool stays busy; results are mapped back to the generation order
-    order = sorted(range(len(cases)), key=lambda i: -_cost(cases[i]))
+    main_proc = {i for i, c in enumerate(cases) if "num_processes" in (c.get("options") or {})}   # start worker processes themselves
+    order = sorted((i for i in range(len(cases)) if i not in main_proc), key=lambda i: -_cost(cases[i]))
     res_sorted = pool_map(run_case, [cases[i] for i in order])
     results = [None] * len(cases)
     for i, r in zip(order, res_sorted):
         results[i] = r
+    for i in sorted(main_proc):
+        results[i] = run_case(cases[i])
     known_entries = vlib.load_known()
     fails, known_hits, lits, lit_meta, seen_lit = [], {}, [], [], set()
     for case, res in zip(cases, results):
